@@ -471,6 +471,76 @@ def ledger_immutable():
         os.unlink(path)
 
 
+LEDGER_STATEMENTS = [
+    'SELECT date, account, position',
+    'SELECT account, sum(position) GROUP BY account ORDER BY account',
+    'SELECT account, sum(position) FROM CLEAR GROUP BY account ORDER BY account',
+    'SELECT account, sum(position) FROM OPEN ON 2020-02-01 GROUP BY account ORDER BY account',
+    'SELECT account, sum(position) FROM OPEN ON 2020-02-01 CLEAR GROUP BY account ORDER BY account',
+    'SELECT account, sum(position) FROM OPEN ON 2020-02-01 CLOSE ON 2020-03-15 GROUP BY account ORDER BY account',
+    'SELECT account, sum(position) FROM OPEN ON 2020-02-01 CLOSE ON 2020-03-15 CLEAR GROUP BY account ORDER BY account',
+    'SELECT account, sum(position) FROM CLOSE ON 2020-03-15 GROUP BY account ORDER BY account',
+    'SELECT date, narration FROM year = 2020 WHERE number > 0',
+    'BALANCES', 'BALANCES FROM CLEAR', 'JOURNAL "Cash"', 'JOURNAL "Cash" FROM CLOSE ON 2020-03-15',
+    'SELECT date, type FROM #entries', 'SELECT balance WHERE account ~ "Cash"',
+    'SELECT account FROM #postings WHERE account IN (SELECT account FROM CLOSE ON 2020-02-15)',
+]
+LEDGER_SRC = '''option "operating_currency" "USD"
+2020-01-01 open Assets:Cash
+2020-01-01 open Income:Job
+2020-01-01 open Expenses:Food
+2020-01-01 open Assets:Stock
+2020-01-01 open Equity:Opening
+2020-01-05 * "Employer" "Pay"
+  Assets:Cash   1000.00 USD
+  Income:Job
+2020-02-01 * "Shop" "Food"
+  Expenses:Food  12.50 USD
+  Assets:Cash
+2020-03-01 * "Buy"
+  Assets:Stock  2 ABC {10.00 USD}
+  Assets:Cash
+2020-03-02 price ABC 11.00 USD
+2020-04-01 * "Shop" "More food"
+  Expenses:Food  7.50 USD
+  Assets:Cash
+'''
+
+
+def gen_ledger_history(rng):
+    return [rng.randrange(len(LEDGER_STATEMENTS)) for _ in range(rng.randint(2, 7))]
+
+
+def _ledger_path():
+    import tempfile
+    f = tempfile.NamedTemporaryFile('w', suffix='.beancount', delete=False)
+    f.write(LEDGER_SRC)
+    f.close()
+    return f.name
+
+
+def _run_ledger_stmt(conn, text):
+    try:
+        cur = conn.execute(text)
+        return [0, [repr(r) for r in cur.fetchall()]]
+    except Exception as e:  # noqa: BLE001
+        return ['exception', impl.exc_class(e), str(e)[:120]]
+
+
+def run_ledger_history(h):
+    """Statements with and without OPEN/CLOSE/CLEAR, BALANCES, JOURNAL ... in sequence on ONE Beancount connection; every result
+    must equal the result of the same statement on a fresh connection over the same ledger."""
+    import os
+    path = _ledger_path()
+    try:
+        conn = impl.beanquery.connect('beancount:' + path)
+        got = [_run_ledger_stmt(conn, LEDGER_STATEMENTS[i]) for i in h]
+        want = [_run_ledger_stmt(impl.beanquery.connect('beancount:' + path), LEDGER_STATEMENTS[i]) for i in h]
+    finally:
+        os.unlink(path)
+    return got, want
+
+
 def run(tier, rng):
     violations = []
     n_p = 700 if tier == 'quick' else 15000
@@ -506,6 +576,17 @@ def run(tier, rng):
             seen.add(sig)
             violations.append(core.Violation('same-cursor-history', f'one cursor re-used for {h["steps"]} on {h["texts"]}: {got} but a fresh '
                                              f'connection gives {want}', {'kind': 'same-cursor', 'history': h, 'got': got, 'want': want},
+                                             signature=sig))
+    lh = [gen_ledger_history(rng) for _ in range(60 if tier == 'quick' else 600)]
+    lh = [[2, 1], [4, 3], [10, 9], [6, 5], [0, 2, 0]] + lh
+    for h, (got, want) in zip(lh, core.pmap(run_ledger_history, lh)):
+        if got != want and len(seen) < 6:
+            k = next(i for i, (g, w) in enumerate(zip(got, want)) if g != w)
+            sig = 'ledger-history:' + ' ; '.join(LEDGER_STATEMENTS[i] for i in h[:k + 1])
+            seen.add(sig)
+            violations.append(core.Violation('ledger-history', f'on one connection, after {[LEDGER_STATEMENTS[i] for i in h[:k]]} the statement '
+                                             f'{LEDGER_STATEMENTS[h[k]]!r} returns {got[k]} but a fresh connection returns {want[k]}',
+                                             {'kind': 'ledger-history', 'statements': [LEDGER_STATEMENTS[i] for i in h], 'got': got, 'want': want},
                                              signature=sig))
     nph_hist, folded_n, hist_ops = {}, 0, {}
     for c, (wp, wl) in zip(pc, p_impl):
@@ -559,7 +640,7 @@ def run(tier, rng):
     nontrivial = len({c['ptext'] + repr(c['params']) for c in pc if c['nph'] >= 2}) + \
         len({show_history(h) for h in hs if sum(o[0] in ('exec_ast', 'exec_many') for o in h) >= 2})
     cov = {
-        'evaluations': len(pc) + len(fc) + len(hs) + nwork + len(bc) + len(sc), 'binding_order_cases': len(bc), 'same_cursor_histories': len(sc), 'distinct_nontrivial': nontrivial,
+        'evaluations': len(pc) + len(fc) + len(hs) + nwork + len(bc) + len(sc) + len(lh), 'binding_order_cases': len(bc), 'same_cursor_histories': len(sc), 'ledger_histories': len(lh), 'distinct_nontrivial': nontrivial,
         'rule': '(a) random statements whose constants are replaced by %s / %(name)s placeholders (targets, WHERE, ORDER BY '
                 'expressions, wrapped in a subquery; repeated names) compared with the literal form and the model; (b) random constant '
                 'expressions evaluated folded vs per row from a one-row table of constant columns vs model; (c) random histories of '
